@@ -556,7 +556,7 @@ fn main() {
     let prop = ctx.opt("prop").unwrap_or("C06").to_string();
     let depth: u32 = ctx.opt("depth").map(|d| d.parse().unwrap()).unwrap_or(if ctx.thorough() { 6 } else { 4 });
     let max_states = 3_000_000;
-    if !ctx.common_case(|| "BitVec::<seed construction>".to_string()) {
+    if !ctx.common_case(|| "BitVec::<seed-construction>".to_string()) {
         ctx.cap("seed construction crashed");
         ctx.finish();
         return;
